@@ -20,7 +20,9 @@ def replay(case):
 RULE = ("same inputs as C05; every cleaner pass is invoked directly as getattr(TreeCleaner(tree), name)(tree) in "
         "cleaner_methods order under a step budget of 1e6 + 2000*nodes*depth logical steps, any exception or budget "
         "overrun is a violation; additionally clean_all() (the deployed driver) runs on a second tree of the same "
-        "input and its ERROR: reports are counted; non-trivial = tree has >=4 node classes; distinct = distinct (text, language)")
+        "input and its ERROR: reports are counted; after fix_nesting / fix_paragraphs one more step of the pass's own "
+        "repair function must find nothing left (fixed point); inputs include one shape repeated 101-260 times and "
+        "runs of 1100-1500 textless inline siblings; non-trivial = tree has >=4 node classes; distinct = distinct (text, language)")
 ASSUMPTIONS = [
     "'reaches its fixed point' is read as: the pass's own loops terminate within the step budget (re-applying a pass "
     "need not be a no-op)",
@@ -31,4 +33,4 @@ LEVEL_TEXT = ("Exploration: each of the 57 pass applications runs directly (no c
               "budget on 7e3 (quick) / 4e5 (thorough) generated trees including documents built to switch every pass "
               "on; the evidence lists which passes fired (changed the tree).")
 LEVEL_NOTE = "Passes that never fire on the generated inputs are listed in the evidence; C-level blow-ups are caught by the CPU supervisor."
-TECHNIQUE = "runtime boundary monitor per cleaner pass (exception + sys.monitoring step budget) over trigger, fuzzed and grammar documents"
+TECHNIQUE = "runtime boundary monitor per cleaner pass (exception + sys.monitoring step budget + fixed-point probe) over trigger, repeated-shape, fuzzed and grammar documents"
